@@ -19,6 +19,7 @@ import (
 	"log/slog"
 	"net"
 	"os"
+	"runtime"
 	"sort"
 	"sync"
 	"sync/atomic"
@@ -32,10 +33,20 @@ import (
 // context.DeadlineExceeded), not the cause.
 var errCause = errors.New("vh-c19: caller's private cancellation cause")
 
-const (
-	returnBound = 2 * time.Second // generous bound on "promptly"
-	watchdog    = 3 * time.Second
-)
+// bounds are the two wall-clock limits of the oracle. A failure on either is
+// never reported from the loaded parallel phase alone: it is re-run in isolation
+// with the bounds doubled up to three times (see confirmTiming).
+type bounds struct {
+	hang   time.Duration // the operation must have returned by then
+	prompt time.Duration // generous bound on "promptly" after the cancellation
+}
+
+var baseBounds = bounds{hang: 3 * time.Second, prompt: 2 * time.Second}
+
+func (b bounds) doubled() bounds { return bounds{2 * b.hang, 2 * b.prompt} }
+
+// timing-based failure keys (everything else is independent of the clock)
+var timingKey = map[string]bool{"hang": true, "slow": true, "left-open": true}
 
 type mode struct {
 	Shape    string `json:"shape"`
@@ -59,8 +70,9 @@ type obs struct {
 	Ops       int    `json:"ops"`
 	OpsLater  int    `json:"ops_later"`
 	Log       string `json:"log"`
-	Reached   bool   `json:"stall_reached"` // the stalling call had begun when the operation returned
-	ElapsedMs int64  `json:"elapsed_ms"`    // from the cancellation (or start) to the return; not compared
+	Unjudged  bool   `json:"unjudged,omitempty"` // slow in the loaded phase, not re-run (no timing failure was reproducible)
+	Reached   bool   `json:"stall_reached"`      // the stalling call had begun when the operation returned
+	ElapsedMs int64  `json:"elapsed_ms"`         // from the cancellation (or start) to the return; not compared
 	PeerErr   string `json:"peer_err,omitempty"`
 }
 
@@ -75,8 +87,8 @@ func findShape(name string) *shape {
 }
 
 // runOne executes one exchange with the given disturbance and reports what the
-// instrumented side did. It never blocks longer than the watchdog.
-func runOne(sh *shape, m mode) (obs, error) {
+// instrumented side did. It never blocks longer than b.hang (plus clean-up).
+func runOne(sh *shape, m mode, bd bounds) (obs, error) {
 	e, err := sh.mk()
 	if err != nil {
 		return obs{}, fmt.Errorf("setup of %s: %w", sh.name, err)
@@ -203,7 +215,7 @@ func runOne(sh *shape, m mode) (obs, error) {
 			o.CauseErr = errors.Is(r.err, errCause)
 			o.InjErr = errors.Is(r.err, errInjected)
 		}
-	case <-time.After(watchdog):
+	case <-time.After(bd.hang):
 		o.Returned = false
 	}
 	o.Ops = a.opCount()
@@ -216,7 +228,7 @@ func runOne(sh *shape, m mode) (obs, error) {
 		doCancel() // late cancellation: must not disturb the finished exchange
 	}
 	// the close-on-cancel callback runs in its own goroutine: give it a moment
-	for i := 0; i < 60 && !a.isClosed() && (m.Timing == "during" || m.Timing == "between"); i++ {
+	for w := time.Duration(0); w < bd.prompt*3/20 && !a.isClosed() && (m.Timing == "during" || m.Timing == "between"); w += 5 * time.Millisecond {
 		time.Sleep(5 * time.Millisecond)
 	}
 	if m.Timing == "after" {
@@ -236,13 +248,13 @@ func runOne(sh *shape, m mode) (obs, error) {
 				o.PeerErr = o.PeerErr[:120]
 			}
 		}
-	case <-time.After(watchdog):
+	case <-time.After(bd.hang):
 		o.PeerErr = "peer did not return after both connections were closed"
 	}
 	if !o.Returned {
 		select {
 		case <-done:
-		case <-time.After(watchdog):
+		case <-time.After(bd.hang):
 		}
 	}
 	return o, nil
@@ -263,10 +275,10 @@ func timingTerm(t string) string {
 }
 
 // judge is the direct property oracle for one observation.
-func judge(sh *shape, m mode, nops int, o obs) (key, why string) {
+func judge(sh *shape, m mode, nops int, o obs, b bounds) (key, why string) {
 	id := fmt.Sprintf("%s/role%d/%s/k=%d", m.Shape, m.Role, m.Timing, m.K)
 	if !o.Returned {
-		return "hang", id + ": the operation did not return within " + watchdog.String()
+		return "hang", id + ": the operation did not return within " + b.hang.String()
 	}
 	switch m.Timing {
 	case "before", "during", "between":
@@ -276,7 +288,7 @@ func judge(sh *shape, m mode, nops int, o obs) (key, why string) {
 			}
 			return "nil-after-cancel", id + ": returned nil although the context was cancelled before the exchange finished"
 		}
-		if o.ElapsedMs > returnBound.Milliseconds() {
+		if o.ElapsedMs > b.prompt.Milliseconds() {
 			return "slow", fmt.Sprintf("%s: returned %d ms after the cancellation", id, o.ElapsedMs)
 		}
 		if sh.plain && !o.CtxErr {
@@ -338,7 +350,7 @@ func gen(c *core.Ctx) error {
 	quiet()
 	c.Rule("every exchange shape (plain frames, AES frames, AES frames and a CLAIMTOBE handshake on streams whose connection was installed with SetConnection after construction, typed messages, secret+file, handshakes: no-auth clear/AES, CLAIMTOBE, FS, FS|CLAIMTOBE, TOKEN, resumed session; each followed by a request/reply) is run on the real code on both roles over an instrumented connection; a reference run counts the connection-level calls N of the instrumented side; then for EVERY k<N call k is made to stall for ever and the context is cancelled (synchronously, from a timer, by deadline; with plain contexts and with WithCancelCause / WithTimeoutCause contexts carrying a custom cause - the error must still be ctx.Err(); stall inside a channel wait or inside a real net.Pipe call); also: context cancelled beforehand, cancelled right after call k completed, cancelled after completion, context.Background() undisturbed and with the connection failing from call k. non-trivial = a during/between case (stall or cancellation in the middle of the exchange); distinct by (shape, role, timing, k, variant)")
 	c.Assume("closing a net.Conn makes a blocked Read/Write return (exercised on net.Pipe, a TCP loopback pair and the harness connection, not provable in the model)")
-	c.Assume("promptness is measured against a 2 s bound, not proved")
+	c.Assume("promptness is measured against a 2 s bound (3 s to return at all), not proved; a failure on these bounds counts only if it also fails isolated re-runs with the bounds doubled up to 16 s / 24 s")
 	assumptionProbe(c)
 	shapes := allShapes()
 	type job struct {
@@ -350,7 +362,7 @@ func gen(c *core.Ctx) error {
 	for i := range shapes {
 		sh := &shapes[i]
 		for role := 1; role <= 2; role++ {
-			ref, err := runOne(sh, mode{Shape: sh.name, Role: role, Timing: "bgok"})
+			ref, err := runOne(sh, mode{Shape: sh.name, Role: role, Timing: "bgok"}, baseBounds.doubled().doubled())
 			if err != nil {
 				return err
 			}
@@ -403,7 +415,7 @@ func gen(c *core.Ctx) error {
 	for i := range jobs {
 		if atomic.LoadInt32(&hangs) >= 8 {
 			// the property is already refuted several times over; every further
-			// hanging case would cost a watchdog period
+			// hanging case would cost a watchdog period (and the confirmation re-runs)
 			skipped[i] = true
 			continue
 		}
@@ -412,7 +424,7 @@ func gen(c *core.Ctx) error {
 		go func(i int) {
 			defer wg.Done()
 			defer func() { <-sem }()
-			o, err := runOne(jobs[i].sh, jobs[i].m)
+			o, err := runOne(jobs[i].sh, jobs[i].m, baseBounds)
 			if err == nil && !o.Returned {
 				atomic.AddInt32(&hangs, 1)
 			}
@@ -420,14 +432,79 @@ func gen(c *core.Ctx) error {
 		}(i)
 	}
 	wg.Wait()
+	// Phase 2: timing-based failures of the (loaded, parallel) phase 1 are confirmed
+	// in isolation before they count. Clock-independent failures stand as they are.
+	type verdict struct{ key, why string }
+	verdicts := make([]verdict, len(jobs))
+	var timingIdx []int
+	for i, j := range jobs {
+		if skipped[i] {
+			continue
+		}
+		if outs[i].err != nil {
+			return outs[i].err
+		}
+		k, w := judge(j.sh, j.m, j.nops, outs[i].o, baseBounds)
+		verdicts[i] = verdict{k, w}
+		if timingKey[k] {
+			timingIdx = append(timingIdx, i)
+		}
+	}
+	confirmed, cleared, full := 0, 0, 0
+	for n, i := range timingIdx {
+		j := jobs[i]
+		if confirmed > 0 && n >= 5 {
+			verdicts[i].why += " [same signature as a confirmed failure, not individually re-run]"
+			c.Count("timing-failure:not-rerun")
+			continue
+		}
+		if confirmed == 0 && n >= 25 {
+			// dozens of slow cases and none reproducible: an overloaded machine
+			verdicts[i] = verdict{}
+			outs[i].o.Unjudged = true
+			c.Count("timing-failure:unconfirmed-not-rerun")
+			continue
+		}
+		retries := 3
+		if confirmed > 0 && full >= 1 {
+			retries = 1 // one scenario already failed every escalation; one doubled re-run suffices for the next four
+		} else {
+			full++
+		}
+		runtime.GC()
+		b := baseBounds
+		ok := false
+		var lastKey, lastWhy string
+		for r := 0; r < retries; r++ {
+			b = b.doubled()
+			o2, err := runOne(j.sh, j.m, b)
+			if err != nil {
+				return err
+			}
+			lastKey, lastWhy = judge(j.sh, j.m, j.nops, o2, b)
+			if !timingKey[lastKey] {
+				// returned in time under the wider bounds: the first run was just slow
+				outs[i].o = o2
+				verdicts[i] = verdict{lastKey, lastWhy} // "" or a clock-independent failure seen on the re-run
+				ok = true
+				break
+			}
+		}
+		if ok {
+			cleared++
+			c.Count("timing-failure:slow-under-load-ok-on-retry")
+			c.Note(fmt.Sprintf("slow under load, confirmed OK on retry: %s/role%d/%s/k=%d", j.m.Shape, j.m.Role, j.m.Timing, j.m.K))
+		} else {
+			confirmed++
+			verdicts[i] = verdict{lastKey, fmt.Sprintf("%s [confirmed: failed the first run and %d isolated re-run(s) with bounds doubled up to hang %s / prompt %s]", lastWhy, retries, b.hang, b.prompt)}
+			c.Count("timing-failure:confirmed")
+		}
+	}
 	var worst int64
 	for i, j := range jobs {
 		if skipped[i] {
 			c.Count("skipped-after-8-hangs")
 			continue
-		}
-		if outs[i].err != nil {
-			return outs[i].err
 		}
 		o := outs[i].o
 		c.Count("timing:" + j.m.Timing)
@@ -450,20 +527,25 @@ func gen(c *core.Ctx) error {
 		}
 		desc := map[string]interface{}{"mode": j.m, "nops": j.nops, "observed": o}
 		c.OracleCheck()
-		if key, why := judge(j.sh, j.m, j.nops, o); key != "" {
-			c.OracleFail(key, why, j.m)
+		if verdicts[i].key != "" {
+			c.OracleFail(verdicts[i].key, verdicts[i].why, j.m)
 		}
 		if j.m.Timing == "during" && !o.Reached {
 			c.Count("deadline-before-stall")
 		}
-		if j.m.Timing != "between" && !(j.m.Timing == "during" && !o.Reached) {
+		if o.Unjudged {
+			c.Evaluated(1)
+		} else if j.m.Timing != "between" && !(j.m.Timing == "during" && !o.Reached) {
 			c.AddCase(fmt.Sprintf("CRun %s %s %s %s %s %s %s", core.Nat(j.nops), core.Nat(j.m.K), timingTerm(j.m.Timing),
 				core.Bool(o.Returned), core.Bool(o.Err), core.Bool(o.Closed), core.Nat(opsForModel(j.m, j.nops, o))), desc)
 		} else {
 			c.Evaluated(1)
 		}
 	}
-	c.Note(fmt.Sprintf("slowest return after a cancellation: %d ms (bound %d ms)", worst, returnBound.Milliseconds()))
+	if cleared > 0 || confirmed > 0 {
+		c.Note(fmt.Sprintf("timing-based failures in the parallel phase: %d; confirmed in isolation: %d; slow under load but OK on retry: %d", len(timingIdx), confirmed, cleared))
+	}
+	c.Note(fmt.Sprintf("slowest return after a cancellation: %d ms (bound %d ms)", worst, baseBounds.prompt.Milliseconds()))
 	return nil
 }
 
@@ -564,17 +646,25 @@ func replay(raw json.RawMessage) error {
 	if sh == nil {
 		return fmt.Errorf("unknown shape %q", m.Shape)
 	}
-	ref, err := runOne(sh, mode{Shape: m.Shape, Role: m.Role, Timing: "bgok"})
+	ref, err := runOne(sh, mode{Shape: m.Shape, Role: m.Role, Timing: "bgok"}, baseBounds.doubled().doubled())
 	if err != nil {
 		return err
 	}
-	o, err := runOne(sh, m)
+	b := baseBounds
+	o, err := runOne(sh, m, b)
+	for r := 0; err == nil && r < 3; r++ {
+		if k, _ := judge(sh, m, ref.Ops, o, b); !timingKey[k] {
+			break
+		}
+		b = b.doubled()
+		o, err = runOne(sh, m, b)
+	}
 	if err != nil {
 		return err
 	}
 	js, _ := json.Marshal(o)
 	fmt.Fprintln(out, "observed:", string(js))
-	if key, why := judge(sh, m, ref.Ops, o); key != "" {
+	if key, why := judge(sh, m, ref.Ops, o, b); key != "" {
 		return fmt.Errorf("%s: %s", key, why)
 	}
 	return nil
